@@ -58,6 +58,14 @@ func (t Target) ExceptVal(re string) Target { t.ValNot = re; return t }
 // are call renderings (head-anchored); "store:<re>" matches "<addr> = <value>"
 // of a store and "mapset:<re>" matches "<map>[<key>] = <value>" of a map update.
 func (e *e1Engine) matchIns(ins ssa.Instruction, re string) bool {
+	if strings.Contains(re, " || ") {
+		for _, alt := range strings.Split(re, " || ") {
+			if e.matchIns(ins, alt) {
+				return true
+			}
+		}
+		return false
+	}
 	switch {
 	case strings.HasPrefix(re, "store:"):
 		st, ok := ins.(*ssa.Store)
